@@ -103,6 +103,14 @@ def run_roundtrip(ctx, case):
     lib = (g.angle_to_su2 if su2 else g.angle_to_so3)(al, be, ga)
     ctx.require(lib.shape == shape + (d, d), 'angle_to_*: shape')
     ctx.close(lib.reshape(-1, d, d), mats, 1e-12, 'angle_to_* = Rz(alpha) Ry(beta) Rz(gamma)')
+    # angles written as Python / numpy integers (the literal 0, an integer array): alpha = 0 or gamma = 0 with the other angles as drawn
+    for which in (0, 2):
+        a_int = [al, be, ga]
+        a_int[which] = np.zeros(shape, dtype=np.int64) if shape else 0
+        a_flt = [al, be, ga]
+        a_flt[which] = np.zeros(shape, dtype=np.float64) if shape else 0.0
+        f_ = g.angle_to_su2 if su2 else g.angle_to_so3
+        ctx.close(f_(*a_int), f_(*a_flt), 1e-15, 'angle_to_*: an angle given as an integer 0 acts like the float 0.0')
     M = lib if case['via_lib'] else mats.reshape(shape + (d, d))
     M_in = np.array(M, copy=True)
     out = (g.su2_to_angle if su2 else g.so3_to_angle)(M_in)
